@@ -98,7 +98,7 @@ pub(crate) fn parse_offset(chars: &mut Peekable<Chars<'_>>) -> TemporalResult<Op
         Some(&':') => {
             return Err(TemporalError::range().with_message("offset separators do not align."))
         }
-        Some(_) => _ = parse_digit_pair(chars),
+        Some(_) => _ = parse_digit_pair(chars)?,
         None => return Ok(result),
     }
 
